@@ -387,6 +387,8 @@ type Detector struct {
 	Runs int
 	// OnRun, when set, runs inside Scan; a non-nil error it returns is what Scan returns.
 	OnRun func(ctx context.Context) error
+	// Req is what RequiredExtractors returns (names of built-in extractors).
+	Req []string
 }
 
 var _ detector.Detector = (*Detector)(nil)
@@ -401,7 +403,7 @@ func (d *Detector) Version() int { return 1 }
 func (d *Detector) Requirements() *plugin.Capabilities { return &plugin.Capabilities{} }
 
 // RequiredExtractors implements detector.Detector.
-func (d *Detector) RequiredExtractors() []string { return nil }
+func (d *Detector) RequiredExtractors() []string { return d.Req }
 
 // Scan implements detector.Detector.
 func (d *Detector) Scan(ctx context.Context, root *scalibrfs.ScanRoot, px *packageindex.PackageIndex) ([]*detector.Finding, error) {
